@@ -278,8 +278,10 @@ def run(ctx):
                                                 which=('basex', 'daun', 'rbasex'))
     ctx.cov.update(traces_validated_against_impl=tv_n, translation_validation_failures=len(tv_fail),
                    generated_definitions=0 if em is None else len(em.index))
-    ctx.cov['obligations'] = len(pr['theorems']) + tv_n
-    ctx.cov['discharged'] = pr['discharged'] + tv_n - len(tv_fail)
+    # proof obligations = theorems of the props file; the numeric validation of the generated terms is the tie
+    ctx.cov['obligations'] = len(pr['theorems'])
+    ctx.cov['discharged'] = pr['discharged']
+    ctx.cov['generated_terms_validated_numerically'] = tv_n - len(tv_fail)
     broken = (not pr['ok']) or bool(terr) or bool(tv_fail)
     hits, n_eval, n_distinct, worst, samples = search(ctx, rng, enlarged=broken)
     ctx.cov.update(evaluations=n_eval + tv_n, distinct_nontrivial=n_distinct, exhaustive=False,
